@@ -19,7 +19,9 @@ INFO = {
     'functions': ['FlowCal.stats.mean/gmean/median/mode/std/cv/gstd/gcv/iqr/rcv',
                   'FlowCal.io.FCSData.__getitem__', 'FlowCal.io.FCSData.__array_wrap__',
                   'FlowCal.io.FCSData.__array_finalize__'],
-    'bounds': {'quick': {'shape': '3 events x 2 channels', 'channel forms': 7},
+    'bounds': {'quick': {'shape': '3 events x 2 channels', 'channel forms': 7,
+                         'order4': '3 x 4 concrete sample, all 48 arrangements of 3 or 4 channels '
+                                   'x 3 spellings (positions, names, mixed)'},
                'thorough': {'shape': '4 x 2'}},
     'outside': ['IEEE rounding of the reductions', 'more than 4 events'],
     'stubs': ['scipy.stats.gmean = exp(mean(log x)) on a base-class copy',
@@ -275,6 +277,58 @@ def make_identities(env):
     return cond_fn('identities', [('cont', 'int')], body_identities, pre=['0 <= cont <= 2'])
 
 
+NAMES4 = ('FSC', 'SSC', 'FL1', 'FL2')
+import itertools as _it
+ORDERS4 = [list(p_) for p_ in _it.permutations(range(4))] + \
+          [list(p_) for p_ in _it.permutations(range(4), 3)]
+ROWS4 = [[1, 5, 2, 9], [3, 11, 4, 27], [8, 6, 17, 81]]
+
+
+def body_order4(B, I):
+    """Four-channel sample, channel list = any arrangement of 3 or 4 of the channels (positions,
+    names or mixed): the result equals the single-channel results in the requested order."""
+    fn = I['fn']
+    sel = ORDERS4[ch.pick(I['oi'], 0, len(ORDERS4))]
+    style = ch.pick(I['style'], 0, 3)
+    cont = 2 if (fn in GEOM or fn in ('iqr', 'rcv', 'cv', 'std')) else 1
+    rows = [[float(v) for v in r] for r in ROWS4] if cont == 2 else [list(r) for r in ROWS4]
+    meta = dict(channels=list(NAMES4))
+    data = B.sample(rows, 'float64' if cont == 2 else 'int64',
+                    data_type='F' if cont == 2 else 'I', **meta)
+    if style == 0:
+        chans = list(sel)
+    elif style == 1:
+        chans = [NAMES4[c] for c in sel]
+    else:
+        chans = [NAMES4[c] if k % 2 == 0 else c for k, c in enumerate(sel)]
+    f = getattr(B.FC.stats, fn)
+    r = catch(f, data, chans)
+    if r[0] != 'ok':
+        return False, 'stats.%s raised %s' % (fn, r[1]), r[2]
+    vals = r[1].tolist() if hasattr(r[1], 'tolist') else r[1]
+    if not isinstance(vals, list) or len(vals) != len(sel):
+        return False, 'stats.%s: result does not have one value per requested channel' % fn
+    for k, c in enumerate(sel):
+        one = catch(f, data, c)
+        if one[0] != 'ok':
+            return False, 'stats.%s raised %s for a single channel' % (fn, one[1]), one[2]
+        a, b = getattr(vals[k], 'v', vals[k]), getattr(one[1], 'v', one[1])
+        if not B.close(a, b, 1e-9):
+            return False, 'stats.%s: list of channels != per-channel results in the requested ' \
+                          'order' % fn
+    H.mark('%s len%d style%d' % (fn, len(sel), style))
+    return True
+
+
+def make_order4(fn):
+    def make(env):
+        install_scipy(env)
+        return cond_fn('order4_' + fn, [('oi', 'int'), ('style', 'int')],
+                       body_order4, pre=['0 <= oi <= %d' % (len(ORDERS4) - 1), '0 <= style <= 2'],
+                       consts={'fn': fn})
+    return make
+
+
 FNS = ('mean', 'gmean', 'median', 'mode', 'std', 'cv', 'gstd', 'gcv', 'iqr', 'rcv')
 
 
@@ -293,6 +347,14 @@ def conditions(tier):
                                'integer sample, float sample}; 7 channel forms (absent, position, '
                                'name, lists, single-element list, negative position); list == '
                                'per-channel results in order' % fn))
+    for fn in FNS:
+        cs.append(Cond('order4_' + fn, make=make_order4(fn), replay=std_replay(body_order4),
+                       timeout=300 if q else 900, modules=mods,
+                       doc='3x4 sample (concrete events, distinct per-channel statistics; float sample for the '
+                           'geometric statistics, std, cv, iqr, rcv, integer sample otherwise), channel '
+                           'list = any arrangement of 3 or 4 of the 4 channels as positions, names '
+                           'or mixed: stats.%s(list) == single-channel results in the requested '
+                           'order' % fn))
     cs.append(Cond('identities', make=make_identities, replay=std_replay(body_identities),
                    timeout=300, modules=mods,
                    doc='CV = SD/mean, RCV = IQR/median, GCV = sqrt(exp(ln(GSD)^2)-1) on the '
